@@ -327,6 +327,16 @@ def run_batch(pid, tier, seed, runs=None, workers=None, deadline_s=None, want_di
             continue
         path = write_replay(pid, seed, v['idx'], r.get('case', small), r, {'shrink_execs': execs, 'signature': sig2})
         ok, out = fresh_replay(pid, path)
+        if not ok and small is not v['scenario']:
+            # The minimised scenario fails here but not in a fresh interpreter: it sits on a threshold that depends on the
+            # process it runs in (e.g. how much of the recursion limit the caller's own stack uses). Fall back to the
+            # scenario as generated, which is what the batch saw, and require that one to replay.
+            r0 = pristine_execute(mod, pid, v['scenario'])
+            if r0['verdict'] == 'violation':
+                path = write_replay(pid, seed, v['idx'], r0.get('case', v['scenario']), r0, {'shrink_execs': 0, 'signature': sig2, 'note': 'not minimised: the minimised form did not replay in a fresh process'})
+                ok, out = fresh_replay(pid, path)
+                if ok:
+                    r = r0
         with open(path) as f:
             doc = json.load(f)
         doc['replayed'] = bool(ok)
